@@ -181,7 +181,17 @@ fn op_env(out: &mut Out, rng: &mut Rng, ty: u32, same: [bool; 6]) {
             f[0] = other.public().encode_protobuf();
         }
         let env2 = SignedEnvelope::from_protobuf_encoding(&join_envelope(&f)).expect("re-decode");
-        let dom2 = if same[0] { domain } else { format!("{domain}x") };
+        // a wrong domain of the same length (last digit changed) or a longer one
+        let dom2 = if same[0] {
+            domain
+        } else if rng.bool() {
+            let mut d = domain.clone().into_bytes();
+            let l = d.len() - 1;
+            d[l] = b'0' + (d[l] - b'0' + 1) % 10;
+            String::from_utf8(d).unwrap()
+        } else {
+            format!("{domain}x")
+        };
         let mut expected = f[1].clone();
         if !same[5] {
             flip(rng, &mut expected);
